@@ -1007,13 +1007,14 @@ theorem c05_tdm_select_sort {ε : Type} (K : Nat) (evs : List ε) (m : Method ε
       (∀ k j, (k, j) ∈ t.pairs ↔ ∃ i, (k, i) ∈ r.pairs ∧ τ[j]? = some i) ∧
       t.pairs.map Prod.fst = r.pairs.map Prod.fst ∧ t.pairs.Nodup ∧
       (∀ p ∈ t.pairs, p.1 < K ∧ p.2 < t.events.length) ∧
-      (argsort = none → t.events = r.events) := by
+      (argsort = none → t.events = r.events) ∧
+      (∀ f, argsort = some f → τ = f r.events) := by
   obtain ⟨r, hr, hv⟩ := hm evs none (by intro P hP; cases hP)
   have hnd : r.pairs.Nodup := (C05.sorted_nodup_grouped hv.table.sorted).1
   cases argsort with
   | none =>
     refine ⟨r, { events := r.events, pairs := r.pairs }, List.range r.events.length, hr, hv, ?_,
-      List.Perm.refl _, C05.take_range _, ?_, rfl, hnd, hv.table.bound, fun _ => rfl⟩
+      List.Perm.refl _, C05.take_range _, ?_, rfl, hnd, hv.table.bound, fun _ => rfl, fun g hg => by cases hg⟩
     · simp only [initTrial, hr, incTable]
     · intro k j
       constructor
@@ -1027,7 +1028,7 @@ theorem c05_tdm_select_sort {ε : Type} (K : Nat) (evs : List ε) (m : Method ε
     obtain ⟨sorted, P', hs, hre, hslen, hfst, _, hiff, hnd'⟩ :=
       c05_tdm_sort_reindex r.events (f r.events) r.pairs (hσ f _ rfl) (fun p hp => (hv.table.bound p hp).2)
     refine ⟨r, { events := sorted, pairs := P' }, f r.events, hr, hv, ?_, hσ f _ rfl, hs, hiff, hfst,
-      hnd' hnd, ?_, fun h => by cases h⟩
+      hnd' hnd, ?_, (fun h => by cases h), (fun g hg => by cases hg; rfl)⟩
     · simp only [initTrial, hr, hs, hre, incTable]
     · rintro ⟨k, j⟩ hp
       obtain ⟨i, hi, hj⟩ := (hiff k j).mp hp
@@ -1071,7 +1072,7 @@ theorem c05_tdm_mask_method_exact {ε : Type} (K : Nat) (crit : Nat → ε → B
       (argsort = none → t.events = evs.filter (C05.anyCrit crit K)) ∧
       (∀ k j, (k, j) ∈ t.pairs ↔ k < K ∧ ∃ e, t.events[j]? = some e ∧ crit k e = true) ∧
       t.pairs.Nodup ∧ (t.pairs.map Prod.fst).Pairwise (· ≤ ·) := by
-  obtain ⟨r, t, τ, hr, hv, ht, hτ, htake, hiff, hfst, hnd, _, hnone⟩ :=
+  obtain ⟨r, t, τ, hr, hv, ht, hτ, htake, hiff, hfst, hnd, _, hnone, _⟩ :=
     c05_tdm_select_sort K evs (maskMethod K crit) (c05_mask_method_sound K crit) argsort hσ
   obtain ⟨r', hr', hev, hp, _⟩ := c05_mask_method_exact K crit evs
   rw [hr] at hr'; cases hr'
@@ -1238,6 +1239,7 @@ theorem c05_esm_synced_inv {S : Type} (w : EsmWorld S) (op : EsmOp S) (h : C05.S
     (hop : ∀ id srcs, op = .mutate id srcs → id ≠ w.obj.shgId) : C05.Synced (esmStep false w op) := by
   cases op with
   | change id => simp [esmStep, EsmObj.changeShgMgr, C05.Synced]
+  | reject => exact h
   | mutate id srcs =>
     have hne := hop id srcs rfl
     unfold C05.Synced at h ⊢
@@ -1258,6 +1260,30 @@ theorem c05_esm_history {S ε : Type} (w : EsmWorld S) (ops : List (EsmOp S)) (i
 theorem c05_esm_chain_change {S : Type} (o : EsmObj S × EsmObj S) (id : Nat) (srcs : List S) :
     (chainChange false true o id srcs).1.srcArr = srcs ∧ (chainChange false true o id srcs).2.srcArr = srcs := by
   simp [chainChange, EsmObj.changeShgMgr]
+
+/-- **rejected `change_shg_mgr` calls are no operations**: the argument is checked before anything is
+assigned, so a history with rejected calls interleaved leaves the world exactly as the history
+without them — the next `select_events` uses the sources it used before -/
+theorem c05_esm_rejected_change {S : Type} (er : Bool) (w : EsmWorld S) (ops : List (EsmOp S)) :
+    esmRun er w ops = esmRun er w (ops.filter (fun op => match op with
+      | .reject => false
+      | _ => true)) := by
+  unfold esmRun
+  induction ops generalizing w with
+  | nil => rfl
+  | cons op ops ih =>
+    cases op with
+    | reject => simpa [esmStep] using ih w
+    | mutate id srcs => simpa using ih _
+    | change id => simpa using ih _
+
+/-- before the fix the manager was stored and the source array dropped *before* the check: after a
+rejected call the object had no source array (`none`) whatever it held before -/
+theorem c05_esm_reject_unfixed_counterexample :
+    ¬ ∀ (o : EsmObj Nat), o.rejectUnfixed = some o.srcArr := by
+  intro h
+  have := h { shgId := 0, srcArr := [1] }
+  simp [EsmObj.rejectUnfixed] at this
 
 /-- what an early return on "same manager object" would have to satisfy -/
 def c05_esm_early_return_statement : Prop :=
